@@ -1,7 +1,7 @@
 (* C04 - transposition is exact: modulation, octaves and their composition laws.
    Statements only; proofs in Proofs/TonProofs.v (the rendering-level statement is in C03's files). *)
-From ML Require Import Model.Types gen.Tables Model.Pitch Model.Rel Model.Ton Model.Render Spec.PitchSpec Spec.RenderSpec.
-From ML Require Import Proofs.PitchProofs Proofs.TonProofs Proofs.RenderProofs Proofs.RenderTonProofs.
+From ML Require Import Model.Types gen.Tables Model.Pitch Model.Rel Model.Ton Model.Render Model.Slice Model.Octave Spec.PitchSpec Spec.RenderSpec.
+From ML Require Import Proofs.PitchProofs Proofs.TonProofs Proofs.RenderProofs Proofs.RenderTonProofs Proofs.RenderOctave.
 Open Scope Z_scope.
 
 (* modulating by a tonality that keeps the mode moves every chord-relative pitch
@@ -75,6 +75,31 @@ Theorem C04_modulate_render_absolute : forall s track t,
   forallb (item_ok chord_free) (items s track 0) = true ->
   sounding_of (rscore_map (fun c => chord_mod c t) s) track = sounding_of s track.
 Proof. exact modulate_render_absolute. Qed.
+
+(* rendering level, octaves: Chord.o(k) on every chord moves the sounding notes of a part made of chord-relative notes by exactly 12k;
+   Score.o(k) - Note.o(k) on every note of every part - moves the sounding notes of a part made of non-relative pitched notes of ANY
+   system (absolute notes included) by exactly 12k; onsets, durations (continuations included) and velocities are kept.
+   (Parts containing relative notes are tied by correspondence and oracle only.) *)
+Theorem C04_chord_octave_render : forall s track k sl,
+  forallb (item_ok chord_relative) (items s track 0) = true ->
+  sounding_of s track = Some sl ->
+  sounding_of (rscore_map (fun c => chord_o c k) s) track = Some (map (shift_snote (12 * k)) sl).
+Proof. exact chord_octave_render. Qed.
+
+Theorem C04_score_octave_render : forall s track k sl,
+  forallb (item_ok plain_pitched) (items s track 0) = true ->
+  sounding_of s track = Some sl ->
+  sounding_of (score_o s k) track = Some (map (shift_snote (12 * k)) sl).
+Proof. exact score_octave_render. Qed.
+
+(* non-vacuity: s0 + a continuation + the absolute note a4 (E) under V of C major, raised by two octaves *)
+Example C04_ex_score_octave :
+  let nt k v du := mkTN (mkP k Abs v 0 None None) du 66 in
+  let s := [mkRC (mkC 4 (bare "") (mkT 0 MMaj 0) 0) [("p"%string, [nt KS 0 2; nt KL 0 1; nt KA 4 3])]] in
+  forallb (item_ok plain_pitched) (items s "p" 0) = true /\
+  sounding_of s "p" = Some [mkSN 7 0 3 66; mkSN 4 3 3 66] /\
+  sounding_of (score_o s 2) "p" = Some [mkSN 31 0 3 66; mkSN 28 3 3 66].
+Proof. vm_compute. repeat split; reflexivity. Qed.
 
 Example C04_ex : to_pitch_abs (chord_mod (mkC 4 (bare "65") (mkT 9 MMin (-1)) 2) (mkT 7 MMin 1)) (plain KB 1 0)
                = Some (Some (35 + (7 + 12 * 1))) /\
